@@ -22,7 +22,7 @@ PROBES = ['same-object-twice', 'duplicate-present', 'insert-negative', 'insert-b
 ASSUMPTIONS = ['whitespace-only strings are not part of the operation set (the property does not define them)',
                'extend() is only given well-formed elements']
 
-POOL = ['{a}', '[a]', '{a}', '{}', '[b c]', '{\\x}', '[]', '{b}']
+POOL = ['{a}', '[a]', '{a}', '{}', '[b c]', '{\\x}', '[]', '{b}', '{{a}b}', '[[1]]']
 BAD = ['{x]', 'x', '[y}', '{', ']', '(z)', 'a{b}']
 OPS = ('append', 'extend', 'insert', 'remove', 'pop', 'pop0', 'reverse', 'clear', 'getitem', 'slice', 'len',
        'contains', 'newslice', 'bad_append', 'bad_insert', 'bad_remove')
